@@ -455,8 +455,10 @@ func (f *Follower) endInstr(got ref.Regs) {
 			}
 		}
 	}
-	if !f.skipCompare {
-		// IF and IE change only through the instruction's own writes and new requests
+	if !f.skipCompare && !f.partial {
+		// IF and IE change only through the instruction's own writes and new requests (not
+		// judged when the instruction read volatile memory, e.g. a read-modify-write on IF itself:
+		// the value it writes back depends on requests raised before its read cycle)
 		wantIF, wantIE := f.if0|f.raisedAt[0], f.ie0
 		for k := 1; k <= f.cyc && k < len(f.raisedAt); k++ {
 			for _, a := range p.Acc {
